@@ -81,7 +81,67 @@ func Corpus() []RunDesc {
 		// the same with a dealer disqualified for malformed points and an accomplice revealing another key
 		{ID: "corpus-collude-wrong-key-revealed", N: 5, T: 2, Corrupt: []int{1, 3}, Ops: distinctOps(5), OrderSeed: 42, Shuffle: true,
 			Attacks: Collusion(1, Attack{Name: "pts-mutate", Phase: 7, K: 1}, Accomplice{K: 3, Share: "sh-wrong-value", Val: 2, Reveal: "rev-wrong-for"})},
+		// two accusers, one of them disqualified by the other's accusation while a member walks through the
+		// phase-8 accusation messages (seeded change C01b): 5 sends 4 an undecryptable share and 4 sends 5 a
+		// share that does not fit 4's points, both keep quiet in phase 4 and accuse each other in phase 8
+		// with their true keys. 5's accusation disqualifies 4; 4's accusation disqualifies 4 and 5 (nobody
+		// complained about the broken share in time). Honest 1 hears 5 before 4, honest 2 hears 4 before 5,
+		// honest 3 hears 4 first and 5 last: whatever the order, everybody must end with {4, 5}.
+		{ID: "corpus-accusers-interleaved-per-member", N: 5, T: 2, Corrupt: []int{4, 5}, Ops: distinctOps(5), OrderSeed: 51, Shuffle: true,
+			Attacks: MutualAccusers(5, 4, "sh-garbage", "sh-wrong-value", true),
+			Orders: []MemberOrder{{Phase: 8, Member: 1, Senders: []int{2, 3, 5, 4}}, {Phase: 8, Member: 2, Senders: []int{4, 1, 5, 3}},
+				{Phase: 8, Member: 3, Senders: []int{4, 1, 2, 5}}}},
+		// the same race one round earlier (phase 4 -> 5): both complain at once, per-member orders differ
+		{ID: "corpus-accusers-interleaved-phase4", N: 5, T: 2, Corrupt: []int{4, 5}, Ops: distinctOps(5), OrderSeed: 52, Shuffle: true,
+			Attacks: MutualAccusers(5, 4, "sh-garbage", "sh-wrong-key", false),
+			Orders: []MemberOrder{{Phase: 4, Member: 1, Senders: []int{5, 4}}, {Phase: 4, Member: 2, Senders: []int{4, 5}},
+				{Phase: 4, Member: 3, Senders: []int{1, 4, 2, 5}}}},
 	}
+}
+
+// MutualAccusers scripts two corrupt seats a and b that give each other a reason for a justified
+// accusation: in phase 3 a sends b the share fault [ab] and b sends a the fault [ba]. With
+// late = false their own gjkr objects complain in phase 4 (two accusations resolved in phase 5);
+// with late = true both keep quiet in phase 4 and accuse each other in phase 8 revealing the keys
+// they really used (two accusations resolved in phase 9, where an undecryptable share disqualifies
+// accuser and accused alike). Either way the outcome at an honest member must not depend on the
+// order in which it hears the two accusers.
+func MutualAccusers(a, b int, ab, ba string, late bool) []Attack {
+	out := []Attack{{Name: ab, Phase: 3, By: a, Target: b}, {Name: ba, Phase: 3, By: b, Target: a}}
+	if late {
+		out = append(out,
+			Attack{Name: "acc-quiet", Phase: 4, By: a, Target: b}, Attack{Name: "acc-quiet", Phase: 4, By: b, Target: a},
+			Attack{Name: "acc-false", Phase: 8, By: a, Target: b}, Attack{Name: "acc-false", Phase: 8, By: b, Target: a})
+	}
+	return out
+}
+
+// RaceRun draws a run of the MutualAccusers family: group of 5..maxN seats, two corrupt seats,
+// random share faults, early or late accusations, a third deviation now and then, and Diverge so
+// that the honest members hear the accusers in different orders.
+func RaceRun(r *lib.Rng, id string, maxN int) RunDesc {
+	if maxN < 5 {
+		maxN = 5
+	}
+	n := r.Range(5, maxN)
+	t := (n - 1) / 2
+	p := r.Perm(n)
+	a, b := p[0]+1, p[1]+1
+	corrupt := []int{a, b}
+	sort.Ints(corrupt)
+	ops := distinctOps(n)
+	if r.Bool() { // one operator holds both corrupt seats
+		ops[corrupt[1]-1] = ops[corrupt[0]-1]
+	}
+	faults := []string{"sh-garbage", "sh-wrong-value", "sh-wrong-key"}
+	late := r.Chance(2, 3)
+	ab, ba := faults[r.Intn(3)], faults[r.Intn(3)]
+	if !late && ab == "sh-wrong-value" && ba == "sh-wrong-value" {
+		ba = "sh-garbage" // two plain wrong values are the recorded family C01-f: keep its match narrow
+	}
+	d := RunDesc{ID: id, N: n, T: t, Corrupt: corrupt, Ops: ops, OrderSeed: r.U64() % 1000000, Shuffle: true, Diverge: true,
+		Attacks: MutualAccusers(a, b, ab, ba, late)}
+	return d
 }
 
 // Accomplice: a corrupt seat K that cooperates with a corrupt dealer (see Collusion).
@@ -199,6 +259,9 @@ func RandomRun(r *lib.Rng, id string, maxN int, known bool) RunDesc {
 		}
 		d.Attacks = append(d.Attacks, a)
 	}
+	// drawn last (earlier draws keep their values): honest members hear two or more accusers in
+	// different relative orders
+	d.Diverge = d.Shuffle && !r.Chance(1, 4)
 	return d
 }
 
@@ -409,6 +472,9 @@ func Main() {
 	}
 	for i := 0; i < nRand; i++ {
 		descs = append(descs, RandomRun(rng.Fork(fmt.Sprintf("run%d", i)), fmt.Sprintf("rand-%d", i), maxN, i%9 == 0))
+	}
+	for i := 0; i < o.Count(6, 80); i++ {
+		descs = append(descs, RaceRun(rng.Fork(fmt.Sprintf("race%d", i)), fmt.Sprintf("race-%d", i), maxN))
 	}
 	runChildren(self, descs, em)
 	em.Close(rule, nil)
